@@ -54,7 +54,7 @@ def main():
         rows.append('| %s | %s | %s |' % (d, first_line(meta).replace('|', '/'), verdict))
     table = ['| seed | change | verdict of `./check %s` |' % '<property>', '|---|---|---|'] + rows
     table.append('')
-    table.append('%d seeded changes filed, %d caught by the check of their own property (%d of them only after a rule was '
+    table.append('%d seeded changes filed, %d caught by the check of their own property (at least %d of them -- the history field was introduced late -- only after a rule was '
                  'written or extended in response to the miss), %d not detected.' % (caught + missed, caught, late[0], missed))
     p = os.path.join(HERE, 'DESIGN.md')
     s = open(p).read()
